@@ -451,6 +451,23 @@ pub fn run(prop: &str, tier: &str, replay: Option<&str>) -> i32 {
             st.sans = vec![SanSpec::Ip(vec![10, 1, 2, 0])];
             st.nc = Some(NcSpec { permitted: vec![SubtreeSpec::Ip(CidrSpec { addr: vec![10, 1, 2, 0], prefix: 24, ctor: CidrCtor::AddrPrefix })], excluded: vec![SubtreeSpec::Ip(CidrSpec { addr: vec![10, 1, 2, 0], prefix: 32, ctor: CidrCtor::AddrPrefix })] });
         });
+        // two ELEMENTS of one list in a relation: equal, equal up to case, one text under two forms, one URI in two points
+        add("alternative names: a DNS name twice, then its upper-case twin, then the same text as e-mail and URI", &|st| {
+            st.sans = vec![SanSpec::Dns(dns.into()), SanSpec::Dns(dns.into()), SanSpec::Dns(dns.to_uppercase()), SanSpec::Email(dns.into()), SanSpec::Uri(dns.into()), SanSpec::Dns(dns.into())];
+        });
+        add("alternative names: one address as IPv4, as IPv4-mapped IPv6 and as text in a DNS name", &|st| {
+            st.sans = vec![SanSpec::Ip(vec![192, 0, 2, 1]), SanSpec::Ip(vec![0, 0, 0, 0, 0, 0, 0, 0, 0, 0, 0xff, 0xff, 192, 0, 2, 1]), SanSpec::Dns("192.0.2.1".into()), SanSpec::Ip(vec![192, 0, 2, 1])];
+        });
+        add("distribution points: one URI in two points, and twice within one point", &|st| {
+            st.crl_dps = vec![vec![uri.into(), "http://other.example/crl".into()], vec![uri.into()], vec![uri.into(), uri.into()]];
+        });
+        add("extended key usages: anyExtendedKeyUsage between two others, a custom purpose last", &|st| {
+            st.ekus = vec![EkuSpec::ServerAuth, EkuSpec::Any, EkuSpec::ClientAuth, EkuSpec::Other(vec![1, 3, 6, 1, 4, 1, 55555, 10])];
+        });
+        add("name constraints: the same DNS subtree three times permitted, its upper-case twin excluded", &|st| {
+            st.is_ca = IsCaSpec::Unconstrained;
+            st.nc = Some(NcSpec { permitted: vec![SubtreeSpec::Dns(dns.into()), SubtreeSpec::Dns(dns.into()), SubtreeSpec::Dns(dns.into())], excluded: vec![SubtreeSpec::Dns(dns.to_uppercase())] });
+        });
         add("every list-typed field with exactly one element, every optional field set", &|st| {
             st.is_ca = IsCaSpec::Constrained(3);
             st.dn = name.clone();
